@@ -292,7 +292,9 @@ class Gen:
     def response(self, cc, enc=False, nsessions=None, rc=None, empty_area=None, tag=None, sess_attrs=None):
         rng = self.rng
         if rc is None:
-            rc = 0 if rng.random() < 0.85 else rng.choice([0x101, 0x1C4, 0x9A2, 0x922, 0x084, 0x902])
+            rc = 0 if rng.random() < 0.85 else rng.choice([0x101, 0x1C4, 0x9A2, 0x922, 0x084, 0x902,
+                                                            # reserved / software-layer bits above bit 11
+                                                            0x000C0902, 0x80000101, 0x00070922, 0x0001001E])
         if sess_attrs is not None:
             nsessions = len(sess_attrs)
         if nsessions is None:
